@@ -91,7 +91,7 @@ CLAIMED = {
                 note="Trusted: TLC; the OS scheduler picks real interleavings (a narrow race can be missed); lazy_static/Once/std_detect are modelled, not hooked."),
     "C20": dict(level="exploration", design="5/C20", technique="TLC enumeration of the feature lattice (closures of every request, generated from cargo metadata) realised with cargo check/build; functional events of feature-selected builds validated by configuration-free specifications",
                 text="Features.tla plus a module generated from cargo metadata let TLC enumerate every feature request of every crate and fold them onto closures (57 configurations today); each is built with cargo on the stable "
-                     "toolchain (exhaustive over the lattice). ChaCha/BLAKE/Groestl/Threefish events from std, no_simd, no-std and no_unroll builds are validated by the same specifications. The TLA+ part is thin: cargo's exit status decides.",
+                     "toolchain (exhaustive over the lattice), and so is every workspace dependency's declared feature as seen by its dependents (feature unification). ChaCha/BLAKE/Groestl/Threefish events from std, no_simd, no-std and no_unroll builds are validated by the same specifications. The TLA+ part is thin: cargo's exit status decides.",
                 note="Trusted: cargo; TLC for enumeration/closure; x86-64 + this sandbox's stable toolchain only. One open known finding (F16: crypto-simd packed_simd needs a nightly-only dependency)."),
 }
 
